@@ -5,6 +5,11 @@ From Muscle Require Import Pulse.PulseModel Pulse.PulseInv Pulse.PulseOps Pulse.
      Pulse.PulseExact Pulse.PulseRefuted.
 Import ListNotations.
 
+(* the translated constant the model's clamp rests on *)
+Theorem C20_never_is_uint64_max : NEVER = (2 ^ 64 - 1)%N.
+Proof. exact never_is_uint64_max. Qed.
+Print Assumptions C20_never_is_uint64_max.
+
 (* reach_inv: every state reachable by any history of create/attach/detach/clear/destroy/invalidate operations and
    manager sweeps -- with Pulse() callbacks that may perform any such operations on any nodes, and GetPulseTime()
    callbacks that are arbitrary functions performing no operations -- satisfies the invariants [Good]:
